@@ -111,7 +111,8 @@ Blame ==
   @@ "oe.cancel.await_ref" :> {"C04"} @@ "oe.cancel.try_halt" :> {"C04"}
   @@ "blk.timer"  :> {"C10"}
   @@ "exit.timer" :> {"C10"}
-  @@ "exit.timer.afterrestart" :> {"C10", "C07"}
+  @@ "exit.timer.afterrestart" :> {"C10", "C07", "C15"}
+  @@ "exit.timer.alive" :> {"C10", "C15"}
   @@ "tf.state"   :> {"C10", "C07"}
   @@ "tf.due"     :> {"C10"}
   @@ "tf.k"       :> {"C10"}
